@@ -464,6 +464,10 @@ def check_cfg(ctx, fx, cfg):
                 for v in ctx.violations[before:]:
                     v["rule"] = "R01.10"
                     v["key"] = "%s/R01.10/%s" % (ctx.prop, v["instance"])
+    # R01.13 (shared with C07) "the state seen by later messages is the sequential fold of exactly the handled messages": the loop hands
+    # its actor to the restart strategy only for a dequeued Restart request — a refresh on any other path (after a timed-out task, say)
+    # replaces or re-initialises the state behind the back of the messages already answered
+    run_loops(ctx, fx, "R01.13", {"L10"}, kinds=("plain",))
     # R01.11 the queue the builder created is the one the environment runs on: terminals hand their Channel over unmodified
     if cfg != "bare":
         n_t = 0
@@ -473,7 +477,16 @@ def check_cfg(ctx, fx, cfg):
             gb = ctx.body(fx, g)
             rs = roots(gb, t_["args"][_ctors[t_["callee"]]])
             n_t += 1
-            okc = bool(rs) and all(r.kind == "arg" or r.kind.startswith("call:channel::Channel::<A>::") for r in rs)
+            def _made_here(r):
+                if r.kind == "arg" or r.kind.startswith("call:channel::Channel::<A>::"):
+                    return True
+                # one of the two constructors, picked by an Option (`capacity.map_or_else(Channel::unbounded, Channel::bounded)`)
+                if r.kind.startswith("call:core::option::{impl#0}::map"):
+                    ct = gb.blocks[r.site[0]]["t"]
+                    fns_ = [a.get("fn") for a in ct["args"][1:] if a.get("k") == "const"]
+                    return len(fns_) == len(ct["args"]) - 1 and all((x or "").startswith("channel::Channel::<A>::") for x in fns_)
+                return False
+            okc = bool(rs) and all(_made_here(r) for r in rs)
             ctx.require(okc, "R01.11", "channel-handed-over:%s@%s" % (g["def"], cfg), "the channel the loop runs on is not the one created for this actor (roots %s)" % sorted(map(str, rs)), fn=g["def"], site=t_["l"])
         # every caller is judged; the floor only guards against the constructor having been renamed away (the count itself
         # changes when terminals share a helper): the environment's own two constructors + at least one builder path
